@@ -74,6 +74,8 @@ def gen_case(rng: random.Random, tier: str) -> dict:
     entry = rng.sample(top_nonfn, min(len(top_nonfn), rng.randint(1, 2))) if (top_nonfn and rng.random() < 0.6) else None
     outs = _declared_outputs(g)
     gsel = rng.sample(outs, rng.randint(1, min(3, len(outs)))) if (outs and rng.random() < 0.35) else None
+    if outs and rng.random() < 0.04:
+        gsel = []  # Graph.select() without names: an empty default selection (nothing is exposed, nothing needs to run)
     r = rng.random()
     if not outs or r < 0.35:
         rsel = None
@@ -187,7 +189,7 @@ def _has_sentinel(v, depth=0) -> bool:
 def _effective(doc: dict, outs: list[str]) -> list[str] | None:
     rsel = doc.get("rsel")
     if rsel is None:
-        return list(doc["gsel"]) if doc.get("gsel") else None
+        return list(doc["gsel"]) if doc.get("gsel") is not None else None
     if rsel == "**":
         return None
     return [rsel] if isinstance(rsel, str) else list(rsel)
@@ -225,13 +227,13 @@ def run_case(doc: dict) -> dict:
             def derive(graph, _d=doc):
                 if _d.get("entry"):
                     graph = graph.with_entrypoint(*_d["entry"])
-                if _d.get("gsel"):
+                if _d.get("gsel") is not None:
                     graph = graph.select(*_d["gsel"])
                 return graph
         else:
             if doc.get("entry"):
                 gs["entrypoints"] = list(doc["entry"])
-            if doc.get("gsel"):
+            if doc.get("gsel") is not None:
                 gs["select"] = list(doc["gsel"])
         act = active_set(g, doc.get("entry"))
         own = _owner(g)
@@ -372,7 +374,7 @@ def run_case(doc: dict) -> dict:
                     diff = {k: (v, ref["values"][k]) for k, v in vals.items() if k in ref["values"] and canon(v) != canon(ref["values"][k])}
                     if diff:
                         viol.append((f"{tag}:scoped_value_differs_from_unscoped_run", {"diff(scoped,unscoped)": diff, "entry": doc.get("entry")}))
-                    if act is not None and rd == 0 and cache is None and doc.get("rsel") is None and not doc.get("gsel") and not inner_sel:
+                    if act is not None and rd == 0 and cache is None and doc.get("rsel") is None and doc.get("gsel") is None and not inner_sel:
                         # liveness inside the scope: every top-level node of the scope that ran in the unscoped run runs in the scoped run
                         hist = w["rt"].history
                         mk = [i for i, h in enumerate(hist) if h["k"] == "derive_marker"]
